@@ -25,6 +25,21 @@ ASSUMPTIONS = ["ClassBalancedSampler asserts that every class occurs (generator 
                "reported only if three different seeds all coincide"]
 
 
+def _two_live(s, alone, name):
+    """two passes over one sampler object that are alive at the same time (zip(s, s), a prefetching consumer next to a logging one)
+    each yield the epoch the sampler yields alone"""
+    a, b = iter(s), iter(s)
+    two = [[], []]
+    for k in range(2 * len(alone) + 2):
+        try:
+            two[k % 2].append(next(a if k % 2 == 0 else b))
+        except StopIteration:
+            pass
+    if two[0] != alone or two[1] != alone:
+        raise Violation(f"{name}:two-live-iterators-disturb-each-other", f"alternating next() on two iterators gives {two[0][:10]} / {two[1][:10]}, "
+                                                                         f"one alone {alone[:10]}")
+
+
 def check_balanced(spec):
     from kappadata.samplers import ClassBalancedSampler
     counts = spec["counts"]
@@ -35,9 +50,14 @@ def check_balanced(spec):
     spc = spec["spc"]
     streams = []
     for r in range(W):
-        s = ClassBalancedSampler(ds, shuffle=spec["shuffle"], samples_per_class=spc, seed=spec["seed"], rank=r, world_size=W)
+        if spec.get("call") == "positional":
+            # documented order: dataset, shuffle, samples_per_class, getall_item, seed, rank, world_size
+            s = ClassBalancedSampler(ds, spec["shuffle"], spc, "class", spec["seed"], r, W)
+        else:
+            s = ClassBalancedSampler(ds, shuffle=spec["shuffle"], samples_per_class=spc, seed=spec["seed"], rank=r, world_size=W)
         s.set_epoch(spec["epoch"])
         st_ = list(s)
+        _two_live(s, st_, "balanced")
         if len(st_) != len(s):
             raise Violation("balanced:stream-length!=len", f"{len(st_)} vs {len(s)}")
         streams.append(st_)
@@ -82,11 +102,16 @@ def check_semi(spec):
     streams = []
     exhausted = False
     for r in range(W):
-        s = SemiSampler(ds, num_labeled=L, num_unlabeled=U, rank=r, world_size=W, seed=spec["seed"], length_mode=mode)
+        if spec.get("call") == "positional":
+            # documented order: dataset, num_labeled, num_unlabeled, rank, world_size, seed, length_mode
+            s = SemiSampler(ds, L, U, r, W, spec["seed"], mode)
+        else:
+            s = SemiSampler(ds, num_labeled=L, num_unlabeled=U, rank=r, world_size=W, seed=spec["seed"], length_mode=mode)
         s.set_epoch(spec["epoch"])
         if s.effective_length != exp_eff:
             raise Violation(f"semi:effective-length:{mode}", f"{s.effective_length} vs {exp_eff}")
         st_ = list(s)
+        _two_live(s, st_, "semi")
         if len(st_) != len(s) or len(st_) != exp_eff // W:
             raise Violation("semi:per-rank-length", f"{len(st_)} vs {exp_eff}//{W}")
         lseq, useq = [], []
@@ -136,9 +161,14 @@ def check_weighted(spec):
         size = max(1, min(size, nz))
     allidx = []
     for r in range(W):
-        s = WeightedSampler(PlainDS(n), weights=wts, size=size, seed=spec["seed"], rank=r, world_size=W)
+        if spec.get("call") == "positional":
+            # documented order: dataset, weights, size, seed, rank, world_size
+            s = WeightedSampler(PlainDS(n), wts, size, spec["seed"], r, W)
+        else:
+            s = WeightedSampler(PlainDS(n), weights=wts, size=size, seed=spec["seed"], rank=r, world_size=W)
         s.set_epoch(spec["epoch"])
         st_ = list(s)
+        _two_live(s, st_, "weighted")
         if len(st_) != len(s) or len(st_) != (size or n) // W:
             raise Violation("weighted:per-rank-length", f"{len(st_)} vs {(size or n)}//{W}")
         allidx += st_
@@ -154,6 +184,7 @@ def check_weighted(spec):
 # sampler seeds: the usual small ones and values around the 31/32-bit boundaries and beyond (the generators take 64-bit seeds)
 SEEDS = st.one_of(st.integers(0, 2 ** 20), st.sampled_from([2 ** 31 - 1, 2 ** 31, 2 ** 32 - 1, 2 ** 32 + 5, 2 ** 40 + 3]))
 WS = st.sampled_from([1, 2, 2, 3, 4])
+CALL = st.sampled_from(["keyword", "keyword", "positional"])
 # label containers as datasets hand them out: lists, int64 arrays - and the narrow integer dtypes label files are stored in
 # (class id x dataset size exceeds the range of int8/uint8 for the larger layouts)
 BULK = st.sampled_from(["list", "numpy", "tensor", "numpy:uint8", "numpy:int8", "numpy:int16", "numpy:int32", "tensor:uint8",
@@ -161,13 +192,13 @@ BULK = st.sampled_from(["list", "numpy", "tensor", "numpy:uint8", "numpy:int8", 
 COUNTS = st.one_of(st.lists(st.integers(1, 7), min_size=2, max_size=6), st.lists(st.integers(1, 12), min_size=5, max_size=12))
 BAL = st.fixed_dictionaries({"counts": COUNTS, "key": st.integers(0, 999),
                              "bulk": BULK, "spc": st.one_of(st.none(), st.integers(1, 21)),
-                             "shuffle": st.booleans(), "W": WS, "seed": SEEDS, "epoch": st.integers(0, 50)})
+                             "shuffle": st.booleans(), "W": WS, "seed": SEEDS, "epoch": st.integers(0, 50), "call": CALL})
 SEMI = st.fixed_dictionaries({"n_labeled": st.integers(1, 12), "n_unlabeled": st.integers(1, 12), "key": st.integers(0, 999),
                               "bulk": st.sampled_from(["list", "numpy", "tensor"]), "L": st.integers(1, 4), "U": st.integers(1, 4), "W": WS,
-                              "mode": st.sampled_from(["labeled", "unlabeled", "all"]), "seed": SEEDS,
+                              "mode": st.sampled_from(["labeled", "unlabeled", "all"]), "seed": SEEDS, "call": CALL,
                               "epoch": st.integers(0, 50)})
 WEI = st.fixed_dictionaries({"n": st.integers(1, 40), "key": st.integers(0, 999), "zero_frac": st.sampled_from([0.0, 0.3, 0.6]),
-                             "size": st.one_of(st.none(), st.integers(1, 40)), "W": WS, "seed": SEEDS,
+                             "size": st.one_of(st.none(), st.integers(1, 40)), "W": WS, "seed": SEEDS, "call": CALL,
                              "epoch": st.integers(0, 50)})
 
 FACETS = [
